@@ -212,10 +212,14 @@ def main():
              "float32 compilation; distinct = case tags",
         sample_of=lambda c: {k: v for k, v in c.items() if k not in ("features", "model", "inputs")})
     rc = chk.finish(
-        explanation="Deductive: TorchBackend._solve_euler satisfies the same contract (euler_iter) as BaseBackend._solve_euler, for every "
-                    "step count, cadence and state. Bounded: each backend against the one reference semantics (so they agree with each "
+        explanation="Deductive: TorchBackend._solve_euler and JaxBackend._solve_euler/_solve_heun (nested jax.lax.scan over closures; scan is an "
+                    "assumed contract verified like a loop: inductive invariant over (counter, carry), clause over emitted rows, closure "
+                    "bodies executed symbolically from the real source) satisfy the same contracts (euler_iter/heun_iter) as the "
+                    "BaseBackend loops, for every step count, cadence and state. Bounded: each backend against the one reference semantics (so they agree with each "
                     "other); generated Fortran / XLA / torch kernels are outside any verifier available here.",
-        assumptions=["as for C03 (floats as reals, value semantics of the vector field)", "spec_rhs / spec_fixed_step (harness)",
+        assumptions=["as for C03 (floats as reals, value semantics of the vector field)",
+                     "jax.lax.scan(f, init, None, length=L) has its documented semantics and f is traced as a pure function; jnp.asarray / "
+                     ".astype(int32) of an integer step counter are the identity (int32 range not modelled)", "spec_rhs / spec_fixed_step (harness)",
                      "gfortran + f2py + meson from /venv for the Fortran cases"])
     sys.exit(rc)
 
